@@ -243,6 +243,13 @@ def run_check(mod, tier, seed, replay=None):
             print("HARNESS-ERROR property=%s %d of %d histories failed to execute: %s" % (
                 prop, n_harness, agg["histories"], json.dumps(agg["harness"][:2])[:2000]))
             rc = core.EXIT_HARNESS
+        elif agg["aborts"] > max(8, sum(agg["statuses"].values()) // 4):
+            # jobs that met NO injected fault and still raised get no verdict; on the unchanged tree that is
+            # < 1 % of the jobs (the repo's own "OPTIMIZATION FAILED", C16's subject). More than a quarter means the
+            # run lost its verdicts to something else (e.g. the scratch root removed under it) - never a quiet pass.
+            print("HARNESS-ERROR property=%s %d of %d jobs raised without an injected fault and got no verdict" % (
+                prop, agg["aborts"], sum(agg["statuses"].values())))
+            rc = core.EXIT_HARNESS
         elif agg["histories"] == 0 or agg["evaluations"] == 0:
             print("HARNESS-ERROR property=%s nothing was evaluated" % prop)
             rc = core.EXIT_HARNESS
